@@ -18,7 +18,10 @@ Inductive op :=
 | OResize (n : N) | OAdvance (s : N)
 | OHold | ORelease (n : N)
 | ODrain | OStop | OQuery
-| OSetDisc (d : option (N * mode)) | OSetCount (n : N).
+| OSetDisc (d : option (N * mode)) | OSetCount (n : N)
+| OXStop (wid : N)       (* stop the newest live actor of worker wid from outside; its post_stop is held back *)
+| OXRelease (wid : N)    (* let the held-back post_stop of worker wid's oldest closing actor return *)
+| OSetHandler.           (* UpdateSettings(discard_handler): the model has one handler; only the message counts *)
 
 (* `g w` / `f w` / `p w`: the running actor of worker w with the smallest actor id *)
 Definition running_actor (w : world) (wid : N) : option N :=
@@ -35,6 +38,10 @@ Definition newest_actor (w : world) (wid : N) : option N :=
   | None => None
   end.
 
+(* `xr w`: the oldest actor of worker w that sits in its held-back post_stop *)
+Definition closing_actor (w : world) (wid : N) : option N :=
+  find (fun a => match lookup a (actors w) with Some x => a_wid x =? wid | None => false end) (closing w).
+
 Definition factory_can_step (w : world) : bool :=
   running_now w && negb (held w)
   && (stop_req w
@@ -47,7 +54,9 @@ Definition actor_move (w : world) : option label :=
                        && match a_run (snd e) with Some _ => false | None => true end
                        && (a_stop (snd e) || match a_mb (snd e) with [] => false | _ => true end))
              (actors w) with
-  | Some e => Some (if a_stop (snd e) then LWExit (fst e) else LWStart (fst e))
+  | Some e => Some (if a_stop (snd e)
+                    then (if memN (fst e) (gated w) then LWClose (fst e) else LWExit (fst e))
+                    else LWStart (fst e))
   | None => None
   end.
 
@@ -82,8 +91,11 @@ Definition do_labels (c : config) (ls : list label) (st : world * list label) : 
 Definition op_labels (w : world) (o : op) : list label :=
   match o with
   | ODispatch id key ttl port => [LSend (SDispatch id key ttl port)]
-  (* the worker's task goes on with its next mailbox item before the factory's task gets to run *)
-  | OComplete wid => match running_actor w wid with Some a => [LWComplete a; LWStart a] | None => [] end
+  (* the worker's task goes on with its own loop before the factory's task gets to run: it takes its next
+     mailbox item, or -- a stop is pending -- leaves the loop *)
+  | OComplete wid => match running_actor w wid with
+                     | Some a => [LWComplete a; LWStart a; if memN a (gated w) then LWClose a else LWExit a]
+                     | None => [] end
   | OFail wid => match running_actor w wid with Some a => [LWDie a] | None => [] end
   | OKill wid => match newest_actor w wid with Some a => [LWDie a] | None => [] end
   | OResize n => [LSend (SResize n)]
@@ -95,6 +107,9 @@ Definition op_labels (w : world) (o : op) : list label :=
   | OQuery => []
   | OSetDisc d => [LSend (SSetDisc d)]
   | OSetCount n => [LSend (SSetCount n)]
+  | OXStop wid => match newest_actor w wid with Some a => [LWStopExt a] | None => [] end
+  | OXRelease wid => match closing_actor w wid with Some a => [LWClosed a] | None => [] end
+  | OSetHandler => [LSend SNop]
   end.
 
 Definition run_op (c : config) (st : world * list label) (o : op) : world * list label :=
